@@ -24,6 +24,7 @@ RULE = (
     "(drift) long horizon: no secular growth of the energy error. distinct = (mode, variant, joint multiset, has spring, "
     "has loop, body kinds); non-trivial = at least one bilateral constraint and a trajectory that actually moves"
 )
+RULE += " Half of the springs are in compliance form; a quarter of the reverse histories use very fine steps (1e-5..3e-4); one family uses a user-defined contribution with configuration-dependent mass matrix (particle in polar coordinates on an off-centre circular guide, cardsim/custom.py)."
 COMPONENTS = {
     "real": ["Rattle", "fsolve", "System (assemble / deepcopy / set_new_initial_state)", "joints, springs, gravity"],
     "stub": ["tqdm -> SimProgress"],
@@ -112,6 +113,10 @@ def gen(rng, tier, index):
     plan = {"scene": scene, "mode": mode, "dt": dt}
     if mode == "reverse":
         plan["N"] = int(rng.integers(30, 160))
+        if rng.random() < 0.25:
+            # step sizes are the user's choice over many decades: very fine steps (slow change per step)
+            plan["dt"] = float(10 ** rng.uniform(-5.0, -3.5))
+            plan["N"] = int(rng.integers(20, 80))
         plan["via"] = str(rng.choice(["build", "set_new_initial_state"]))
         plan["crash_at"] = int(rng.integers(1, plan["N"])) if rng.random() < 0.3 else None
         if plan["via"] == "set_new_initial_state":
